@@ -23,3 +23,5 @@ for name, over in V.items():
         lines.append("  %s %s" % (k, v if str(v).startswith("<-") else "= %s" % v))
     lines += ["INIT Init", "NEXT Next", "INVARIANTS " + INV, "CHECK_DEADLOCK FALSE"]
     open("MC_Search%s.cfg" % ("_" + name if name else ""), "w").write("\n".join(lines) + "\n")
+    g = [l for l in lines if not l.startswith("INVARIANTS") and not l.startswith("NEXT")] + ["NEXT NextGen", "INVARIANTS Emit"]
+    open("Gen_Search%s.cfg" % ("_" + name if name else ""), "w").write("\n".join(g) + "\n")
